@@ -81,13 +81,14 @@ class Emitter:
 
 
 CFG_MONITORS = {'C10_mon'}
+DRAIN_MONITORS = {'C11_mon'}
 
 
 def emit_sys(traces, out, monitors):
     """traces: list of dicts from `verifh sys`.  monitors: list of Coq function names of type
     list (directive * list obs) -> bool evaluated on the implementation's observations."""
     em = Emitter()
-    out.write('From RV Require Import Sys Replay Mon MonC09 MonC01 MonC05 MonC04 MonC07 MonC08 MonC03 MonC14 MonC10 MonC06.\n')
+    out.write('From RV Require Import Sys Replay Mon MonC09 MonC01 MonC05 MonC04 MonC07 MonC08 MonC03 MonC14 MonC10 MonC06 MonC11.\n')
     names = []
     for k, tr in enumerate(traces):
         cfg = tr['cfg']
@@ -107,8 +108,12 @@ def emit_sys(traces, out, monitors):
     out.write('Definition all_traces := [%s].\n' % '; '.join('(cfg_%d, tr_%d)' % (k, k) for k in names))
     out.write('Definition MISMATCHES := Eval vm_compute in mismatches all_traces.\n')
     out.write('Print MISMATCHES.\n')
+    out.write('Definition drain_traces := [%s].\n' % '; '.join('(%d%%nat, tr_%d)' % (traces[k].get('drain_from', -1) if traces[k].get('drain_from', -1) >= 0 else 5000, k) for k in names))
     for m in monitors:
-        out.write('Definition FAIL_%s := Eval vm_compute in %s %s all_traces.\n' % (m, 'failing_cfg' if m in CFG_MONITORS else 'failing', m))
+        if m in DRAIN_MONITORS:
+            out.write('Definition FAIL_%s := Eval vm_compute in failing_drain %s drain_traces.\n' % (m, m))
+        else:
+            out.write('Definition FAIL_%s := Eval vm_compute in %s %s all_traces.\n' % (m, 'failing_cfg' if m in CFG_MONITORS else 'failing', m))
         out.write('Print FAIL_%s.\n' % m)
     out.write('Definition NONTRIVIAL := Eval vm_compute in map (fun x => nontrivial (snd x)) all_traces.\n')
     out.write('Print NONTRIVIAL.\n')
@@ -135,7 +140,7 @@ def emit_cases(fam, traces, out):
 
 def emit_store(traces, out):
     em = Emitter()
-    out.write('From RV Require Import Sys Replay Mon MonC09 MonC01 MonC05 MonC04 MonC07 MonC08 MonC03 MonC14 MonC10 MonC06.\n')
+    out.write('From RV Require Import Sys Replay Mon MonC09 MonC01 MonC05 MonC04 MonC07 MonC08 MonC03 MonC14 MonC10 MonC06 MonC11.\n')
     names = []
     for k, tr in enumerate(traces):
         evs = []
